@@ -7,8 +7,6 @@ package main
 // parent / level / child / bb by type inside node and entry.
 
 import (
-	"fmt"
-	"go/ast"
 	"go/token"
 	"go/types"
 )
@@ -52,128 +50,6 @@ func checkC11(c *Ctx) {
 	c.Floor("C11.R6", 6)
 }
 
-func fieldReturnedBy(c *Ctx, info *types.Info, m *types.Func) *types.Var {
-	fd := c.P.Decl(m)
-	if fd == nil || len(fd.Body.List) != 1 {
-		return nil
-	}
-	r, ok := fd.Body.List[0].(*ast.ReturnStmt)
-	if !ok || len(r.Results) != 1 {
-		return nil
-	}
-	sel, ok := unparen(r.Results[0]).(*ast.SelectorExpr)
-	if !ok {
-		return nil
-	}
-	if s := info.Selections[sel]; s != nil {
-		v, _ := s.Obj().(*types.Var)
-		return v
-	}
-	return nil
-}
-
-func (a *c11) discover() bool {
-	c := a.c
-	a.treeT = c.P.NamedType("index/rtree", "Rtree")
-	if a.treeT == nil {
-		c.Unk("C11.R1", "index/rtree.Rtree", token.NoPos, "type anchor does not resolve")
-		return false
-	}
-	a.height = fieldReturnedBy(c, a.info, c.P.Method("index/rtree", "Rtree", "Depth"))
-	a.size = fieldReturnedBy(c, a.info, c.P.Method("index/rtree", "Rtree", "Size"))
-	st, _ := a.treeT.Underlying().(*types.Struct)
-	for i := 0; st != nil && i < st.NumFields(); i++ {
-		f := st.Field(i)
-		if pt, ok := f.Type().(*types.Pointer); ok {
-			if n, ok := pt.Elem().(*types.Named); ok {
-				if _, isStruct := n.Underlying().(*types.Struct); isStruct {
-					a.root, a.nodeT = f, n
-				}
-			}
-		}
-	}
-	if a.height == nil || a.size == nil || a.root == nil {
-		c.Unk("C11.R1", "index/rtree.Rtree#fields", token.NoPos, "could not identify the height (Depth), size (Size) and root fields")
-		return false
-	}
-	ns := a.nodeT.Underlying().(*types.Struct)
-	for i := 0; i < ns.NumFields(); i++ {
-		f := ns.Field(i)
-		switch t := f.Type().(type) {
-		case *types.Pointer:
-			if t.Elem() == types.Type(a.nodeT) {
-				a.parent = f
-			}
-		case *types.Slice:
-			if n, ok := t.Elem().(*types.Named); ok {
-				a.entries, a.entryT = f, n
-			}
-		case *types.Basic:
-			if t.Kind() == types.Bool {
-				a.leaf = f
-			} else if t.Info()&types.IsInteger != 0 {
-				a.level = f
-			}
-		}
-	}
-	if a.parent == nil || a.entries == nil || a.level == nil || a.leaf == nil {
-		c.Unk("C11.R1", "index/rtree.node#fields", token.NoPos, "could not identify parent/entries/level/leaf")
-		return false
-	}
-	es := a.entryT.Underlying().(*types.Struct)
-	for i := 0; i < es.NumFields(); i++ {
-		f := es.Field(i)
-		switch t := f.Type().(type) {
-		case *types.Pointer:
-			if t.Elem() == types.Type(a.nodeT) {
-				a.child = f
-			} else if isNamed(t, modPath, "Bounds") {
-				a.bb = f
-			}
-		case *types.Named:
-			if _, ok := t.Underlying().(*types.Interface); ok {
-				a.obj = f
-			}
-		}
-	}
-	if a.child == nil || a.bb == nil || a.obj == nil {
-		c.Unk("C11.R1", "index/rtree.entry#fields", token.NoPos, "could not identify bb/child/obj")
-		return false
-	}
-	pk := c.P.Pkg("index/rtree")
-	for _, fn := range c.P.RepoFuncs() {
-		if c.P.DeclPkg(fn) == pk {
-			a.pkgFuncs = append(a.pkgFuncs, fn)
-			sig := fn.Type().(*types.Signature)
-			if sig.Recv() != nil && named(sig.Recv().Type()) == a.nodeT && sig.Params().Len() == 0 && sig.Results().Len() == 1 && isNamed(sig.Results().At(0).Type(), modPath, "Bounds") {
-				a.fold = fn
-			}
-			if sig.Recv() != nil && named(sig.Recv().Type()) == a.nodeT && sig.Results().Len() == 2 {
-				if named(sig.Results().At(0).Type()) == a.nodeT && named(sig.Results().At(1).Type()) == a.nodeT {
-					a.split = fn
-				}
-			}
-		}
-	}
-	if a.fold == nil {
-		c.Unk(a.r3name, "index/rtree.node#envelope", token.NoPos, "no method computing a node's envelope found")
-		return false
-	}
-	return true
-}
-
-// fieldSel: if e is X.f for field f, returns X.
-func (a *c11) fieldSel(e ast.Expr, f *types.Var) ast.Expr {
-	sel, ok := unparen(e).(*ast.SelectorExpr)
-	if !ok {
-		return nil
-	}
-	if s := a.info.Selections[sel]; s != nil && s.Obj() == f {
-		return sel.X
-	}
-	return nil
-}
-
 // ---------------------------------------------------------------- R1
 
 // ---------------------------------------------------------------- R2
@@ -182,419 +58,4 @@ func (a *c11) fieldSel(e ast.Expr, f *types.Var) ast.Expr {
 
 // ---------------------------------------------------------------- R4
 
-// isPure: fn performs no store to tree state (fields of Rtree/node/entry) and calls only pure package functions.
-func (a *c11) isPure(fn *types.Func) bool {
-	switch a.pure[fn] {
-	case 1:
-		return true
-	case 2:
-		return false
-	case 3:
-		return true // recursion: assume, the body check decides
-	}
-	a.pure[fn] = 3
-	fd := a.c.P.Decl(fn)
-	ok := true
-	ast.Inspect(fd.Body, func(n ast.Node) bool {
-		switch x := n.(type) {
-		case *ast.AssignStmt:
-			for _, l := range x.Lhs {
-				if a.isTreeStateLvalue(l) {
-					ok = false
-				}
-			}
-		case *ast.IncDecStmt:
-			if a.isTreeStateLvalue(x.X) {
-				ok = false
-			}
-		case *ast.CallExpr:
-			if g := callee(a.info, x); g != nil && a.c.P.Decl(g) != nil && g.Pkg() == fn.Pkg() && g != fn {
-				if !a.isPure(g) {
-					ok = false
-				}
-			}
-		}
-		return ok
-	})
-	if ok {
-		a.pure[fn] = 1
-	} else {
-		a.pure[fn] = 2
-	}
-	return ok
-}
-
-func (a *c11) isTreeStateLvalue(l ast.Expr) bool {
-	l = unparen(l)
-	for {
-		switch x := l.(type) {
-		case *ast.SelectorExpr:
-			if s := a.info.Selections[x]; s != nil {
-				if v, ok := s.Obj().(*types.Var); ok && v.IsField() {
-					rt := named(s.Recv())
-					if rt == a.treeT || rt == a.nodeT || rt == a.entryT {
-						// a field of a *local value* (e.g. `var bb geom.Bounds`) is not tree state; node/tree are always pointers here
-						return true
-					}
-				}
-			}
-			l = unparen(x.X)
-		case *ast.IndexExpr:
-			l = unparen(x.X)
-		case *ast.StarExpr:
-			l = unparen(x.X)
-		default:
-			return false
-		}
-	}
-}
-
-func (a *c11) r4() {
-	c := a.c
-	// Insert: size +1 exactly once on every path (directly or through one callee level)
-	for _, spec := range []struct {
-		meth string
-		want int
-	}{{"Insert", 1}, {"Delete", -1}} {
-		m := c.P.Method("index/rtree", "Rtree", spec.meth)
-		fd := c.P.Decl(m)
-		if fd == nil {
-			c.Unk("C11.R4", "index/rtree.(*Rtree)."+spec.meth, token.NoPos, "API anchor does not resolve")
-			continue
-		}
-		name := c.P.FuncName(m)
-		bad, undec := "", ""
-		var badPos token.Pos
-		set := func(p token.Pos, s string) {
-			if bad == "" {
-				bad, badPos = s, p
-			}
-		}
-		cl := &FactsClient{}
-		bump := func(s Facts, d int) {
-			cur := 0
-			switch {
-			case s["sz+1"]:
-				cur = 1
-			case s["sz-1"]:
-				cur = -1
-			case s["sz0"]:
-				cur = 0
-			default:
-				return // already lost
-			}
-			delete(s, "sz+1")
-			delete(s, "sz-1")
-			delete(s, "sz0")
-			switch cur + d {
-			case 0:
-				s["sz0"] = true
-			case 1:
-				s["sz+1"] = true
-			case -1:
-				s["sz-1"] = true
-			}
-		}
-		cl.OnStmt = func(n ast.Node, s Facts) Facts {
-			switch st := n.(type) {
-			case *ast.IncDecStmt:
-				if a.fieldSel(st.X, a.size) != nil {
-					if st.Tok == token.INC {
-						bump(s, 1)
-					} else {
-						bump(s, -1)
-					}
-					delete(s, "clean")
-					return s
-				}
-				if a.isTreeStateLvalue(st.X) {
-					delete(s, "clean")
-				}
-			case *ast.AssignStmt:
-				for _, l := range st.Lhs {
-					if a.fieldSel(l, a.size) != nil {
-						k, ok := constInt(a.info, st.Rhs[0])
-						switch {
-						case st.Tok == token.ADD_ASSIGN && ok:
-							bump(s, int(k))
-						case st.Tok == token.SUB_ASSIGN && ok:
-							bump(s, -int(k))
-						default:
-							undec = "size is assigned `" + src(st) + "`"
-						}
-						delete(s, "clean")
-						continue
-					}
-					if a.isTreeStateLvalue(l) {
-						delete(s, "clean")
-						// removal of exactly one entry: X.entries = append(X.entries[:i], X.entries[i+1:]...)
-						if X := a.fieldSel(l, a.entries); X != nil && len(st.Rhs) == 1 {
-							if call, ok := unparen(st.Rhs[0]).(*ast.CallExpr); ok && builtinName(a.info, call) == "append" && call.Ellipsis.IsValid() && len(call.Args) == 2 {
-								lo, ok1 := unparen(call.Args[0]).(*ast.SliceExpr)
-								hi, ok2 := unparen(call.Args[1]).(*ast.SliceExpr)
-								if ok1 && ok2 && lo.Low == nil && hi.High == nil && lo.High != nil && hi.Low != nil {
-									if b, ok := unparen(hi.Low).(*ast.BinaryExpr); ok && b.Op == token.ADD && sameExpr(a.info, b.X, lo.High) {
-										if k, ok := constInt(a.info, b.Y); ok && k == 1 {
-											s["removed1"] = true
-										}
-									}
-								}
-							}
-						}
-					}
-				}
-			}
-			// calls to impure package functions
-			var scope ast.Node = n
-			if rs, isLoop := n.(*ast.RangeStmt); isLoop {
-				scope = rs.X
-			}
-			ast.Inspect(scope, func(m ast.Node) bool {
-				if _, isLit := m.(*ast.FuncLit); isLit {
-					return false
-				}
-				if call, ok := m.(*ast.CallExpr); ok {
-					if g := callee(a.info, call); g != nil && c.P.Decl(g) != nil && g.Pkg() == m0pkg(a) {
-						if !a.isPure(g) {
-							delete(s, "clean")
-						}
-					}
-				}
-				return true
-			})
-			return s
-		}
-		cl.OnBranch = func(cond ast.Expr, truth bool, s Facts) Facts {
-			ast.Inspect(cond, func(m ast.Node) bool {
-				if call, ok := m.(*ast.CallExpr); ok {
-					if g := callee(a.info, call); g != nil && c.P.Decl(g) != nil && g.Pkg() == m0pkg(a) && !a.isPure(g) {
-						delete(s, "clean")
-					}
-				}
-				return true
-			})
-			return s
-		}
-		cl.OnReturn = func(r *ast.ReturnStmt, s Facts) {
-			pos := fd.End()
-			if r != nil {
-				pos = r.Pos()
-			}
-			if spec.meth == "Insert" {
-				if !s["sz+1"] {
-					set(pos, "a path through Insert does not change size by exactly +1")
-				}
-				return
-			}
-			if r == nil || len(r.Results) != 1 {
-				set(pos, "Delete must return a boolean on every path")
-				return
-			}
-			v := constOf(a.info, r.Results[0])
-			if v == nil {
-				undec = "Delete returns the non-constant `" + src(r.Results[0]) + "`"
-				return
-			}
-			if v.String() == "true" {
-				if !s["sz-1"] {
-					set(pos, "Delete returns true on a path that did not decrement size exactly once")
-				} else if !s["removed1"] {
-					set(pos, "Delete returns true on a path that did not remove exactly one entry from a node")
-				}
-			} else {
-				if !s["sz0"] {
-					set(pos, "Delete returns false on a path that changed size")
-				} else if !s["clean"] {
-					set(pos, "Delete returns false on a path that already stored to tree state (a failed Delete must change nothing)")
-				}
-			}
-		}
-		fl := &Flow[Facts]{C: cl, Info: a.info}
-		fl.Run(fd.Body, Facts{"sz0": true, "clean": true})
-		switch {
-		case undec != "":
-			c.Unk("C11.R4", name, fd.Pos(), "%s", undec)
-		case len(fl.Unsupported) > 0:
-			c.Unk("C11.R4", name, fl.Unsupported[0].Pos(), "unsupported control flow")
-		case bad != "":
-			c.Bad("C11.R4", name, badPos, "%s", bad)
-		default:
-			c.OK("C11.R4", name, fd.Pos(), "size bookkeeping exact on every path%s", map[string]string{"Insert": "", "Delete": "; failure paths are effect-free"}[spec.meth])
-		}
-	}
-}
-
-func m0pkg(a *c11) *types.Package { return a.treeT.Obj().Pkg() }
-
 // ---------------------------------------------------------------- R6
-
-func (a *c11) r5() {
-	c := a.c
-	if a.split == nil {
-		c.Unk("C11.R5", "index/rtree#split", token.NoPos, "split routine not found")
-		return
-	}
-	// functions that only serve the split (fill the two groups): reachable from split
-	inSplit := map[*types.Func]bool{a.split: true}
-	var visit func(f *types.Func)
-	visit = func(f *types.Func) {
-		ast.Inspect(c.P.Decl(f).Body, func(n ast.Node) bool {
-			if call, ok := n.(*ast.CallExpr); ok {
-				if g := callee(a.info, call); g != nil && c.P.Decl(g) != nil && g.Pkg() == f.Pkg() && !inSplit[g] {
-					inSplit[g] = true
-					visit(g)
-				}
-			}
-			return true
-		})
-	}
-	visit(a.split)
-	var maxField *types.Var
-	st := a.treeT.Underlying().(*types.Struct)
-	for i := 0; i < st.NumFields(); i++ {
-		if st.Field(i).Name() == "MaxChildren" {
-			maxField = st.Field(i)
-		}
-	}
-	if maxField == nil {
-		c.Unk("C11.R5", "index/rtree.Rtree.MaxChildren", token.NoPos, "exported fan-out bound not found")
-		return
-	}
-	n := 0
-	for _, fn := range a.pkgFuncs {
-		if inSplit[fn] {
-			continue
-		}
-		fd := c.P.Decl(fn)
-		// append sites
-		var sites []*ast.AssignStmt
-		ast.Inspect(fd.Body, func(nd ast.Node) bool {
-			as, ok := nd.(*ast.AssignStmt)
-			if !ok || len(as.Lhs) != 1 || len(as.Rhs) != 1 {
-				return true
-			}
-			X := a.fieldSel(as.Lhs[0], a.entries)
-			call, isCall := unparen(as.Rhs[0]).(*ast.CallExpr)
-			if X == nil || !isCall || builtinName(a.info, call) != "append" || call.Ellipsis.IsValid() {
-				return true
-			}
-			if x0 := a.fieldSel(call.Args[0], a.entries); x0 == nil || !sameExpr(a.info, x0, X) {
-				return true
-			}
-			sites = append(sites, as)
-			return true
-		})
-		for _, site := range sites {
-			n++
-			X := a.fieldSel(site.Lhs[0], a.entries)
-			key := src(X)
-			cons := fmt.Sprintf("%s#append:%s", c.P.FuncName(fn), key)
-			bad := ""
-			var badPos token.Pos
-			cl := &FactsClient{}
-			cl.OnStmt = func(nd ast.Node, s Facts) Facts {
-				if nd == ast.Node(site) {
-					s["pending"] = true
-					return s
-				}
-				// X reassigned: the expression no longer denotes the node that grew
-				if as, ok := nd.(*ast.AssignStmt); ok {
-					for _, l := range as.Lhs {
-						if o := objOf(a.info, l); o != nil && mentions(a.info, X, o) && s["pending"] {
-							// `leaf, split = leaf.split(…)` inside the overflow branch is the split itself
-							if len(as.Rhs) == 1 {
-								if call, ok := unparen(as.Rhs[0]).(*ast.CallExpr); ok && callee(a.info, call) == a.split {
-									continue
-								}
-							}
-							delete(s, "pending")
-							s["lost"] = true
-						}
-					}
-				}
-				return s
-			}
-			cl.OnBranch = func(cond ast.Expr, truth bool, s Facts) Facts {
-				if !s["pending"] {
-					return s
-				}
-				for _, at := range conjuncts(cond, truth) {
-					b, ok := unparen(at.E).(*ast.BinaryExpr)
-					if !ok {
-						continue
-					}
-					la := lenArg(a.info, b.X)
-					if la == nil {
-						continue
-					}
-					if x := a.fieldSel(la, a.entries); x == nil || src(x) != key {
-						continue
-					}
-					if a.fieldSel(b.Y, maxField) == nil {
-						continue
-					}
-					over := (b.Op == token.GTR && at.Truth) || (b.Op == token.LEQ && !at.Truth)
-					within := (b.Op == token.GTR && !at.Truth) || (b.Op == token.LEQ && at.Truth)
-					if within {
-						delete(s, "pending")
-					}
-					if over {
-						delete(s, "pending")
-						s["overflow"] = true
-					}
-				}
-				return s
-			}
-			splitSeen := func(nd ast.Node) bool {
-				found := false
-				ast.Inspect(nd, func(m ast.Node) bool {
-					if call, ok := m.(*ast.CallExpr); ok && callee(a.info, call) == a.split {
-						if sel, ok := unparen(call.Fun).(*ast.SelectorExpr); ok && src(sel.X) == key {
-							found = true
-						}
-					}
-					return true
-				})
-				return found
-			}
-			inner := cl.OnStmt
-			cl.OnStmt = func(nd ast.Node, s Facts) Facts {
-				if s["overflow"] {
-					if _, isRange := nd.(*ast.RangeStmt); !isRange && splitSeen(nd) {
-						delete(s, "overflow")
-					}
-				}
-				return inner(nd, s)
-			}
-			cl.OnReturn = func(r *ast.ReturnStmt, s Facts) {
-				if r != nil && s["overflow"] {
-					for _, e := range r.Results {
-						if splitSeen(e) {
-							delete(s, "overflow")
-						}
-					}
-				}
-				pos := fd.End()
-				if r != nil {
-					pos = r.Pos()
-				}
-				if (s["pending"] || s["overflow"] || s["lost"]) && bad == "" {
-					bad, badPos = "after `"+src(site)+"` a path returns without comparing len("+key+".entries) with MaxChildren and splitting the node on overflow: the node can exceed the maximum fan-out", pos
-				}
-			}
-			fl := &Flow[Facts]{C: cl, Info: a.info}
-			fl.Run(fd.Body, Facts{})
-			switch {
-			case len(fl.Unsupported) > 0:
-				c.Unk("C11.R5", cons, fl.Unsupported[0].Pos(), "unsupported control flow")
-			case bad != "":
-				c.Bad("C11.R5", cons, badPos, "%s", bad)
-			default:
-				c.OK("C11.R5", cons, site.Pos(), "overflow is tested and split on every path")
-			}
-		}
-	}
-	if n == 0 {
-		c.Unk("C11.R5", "index/rtree#appends", token.NoPos, "no append to a linked node's entries found")
-	}
-}
